@@ -306,7 +306,12 @@ pub fn on_step_cap(detail: String) -> ! {
     // only if faults have stopped; otherwise it is a harness problem (budget too small).
     let pending = with_world(|w| (w.gc_requests.clone(), w.pause.active, w.spec.sched.fair_after_step));
     let (reqs, active, fair_after) = pending;
-    if (!reqs.is_empty() || active) && fair_after != u64::MAX {
+    // (only a request that has been pending for a long stretch of the budget, all of it after the
+    // faults stopped, counts: a run may simply reach its step budget in the middle of a healthy GC)
+    let now = simrt::step();
+    let oldest = reqs.values().map(|r| r.0).min().unwrap_or(now);
+    let stuck = now.saturating_sub(oldest.max(fair_after)) > 2_000_000;
+    if (!reqs.is_empty() || active) && fair_after != u64::MAX && stuck {
         violation(
             "C14",
             "gc-not-completed",
